@@ -317,6 +317,14 @@ func c17(r *hx.Run) {
 					fail("list-differs-from-fold", "applying the list differs from applying its members one by one")
 				}
 			}
+			// a later, unrelated composition by the same composer must not disturb this result (no shared scratch state)
+			if len(ps) == 1 && out != nil {
+				_, _ = composer.ApplyPatches(document.Document{"publicKey": []interface{}{map[string]interface{}{"id": "zz", "type": "T"}}, "service": []interface{}{map[string]interface{}{"id": "zz"}}},
+					[]patch.Patch{alpha[(si+3)%len(alpha)].lib(), alpha[(si+11)%len(alpha)].lib()})
+				if doc.Norm(doc.Doc(out)) != gotN {
+					fail("result-disturbed-by-later-composition", "the returned document changed after the composer was used again: "+hx.Trunc(doc.Norm(doc.Doc(out)), 300))
+				}
+			}
 			// aliasing: mutate the result deeply; the input must not change
 			mutateDeep(map[string]interface{}(out))
 			if string(mustJSON(in)) != snapshot {
